@@ -1006,6 +1006,22 @@ void run_world(char const *chname)
         }
       }
     }
+    // line breaks and tabs around the input (what a line-oriented caller hands over): the string entry points succeed
+    // only when EVERYTHING was consumed, whatever the left-over character is
+    {
+      std::size_t const n0 = inputs.size();
+      for (std::size_t i = 0; i < n0; ++i)
+        if (inputs[i].size() <= 2 || i + 5 * vf::tier<std::size_t>(40, 200) >= n0)
+        {
+          if (i % 3 == 0)
+            inputs.push_back(inputs[i] + "\n");
+          else if (i % 3 == 1)
+            inputs.push_back(inputs[i] + "\t");
+          else
+            inputs.push_back("\n" + inputs[i] + "\n\n");
+        }
+      VF_COUNT("peg/inputs/with-line-breaks-or-tabs-around");
+    }
     vf::add_evals(inputs.size());
     std::size_t ii = 0;
     for (auto const &in : inputs)
